@@ -18,6 +18,7 @@ import z3
 
 from . import source
 from .values import (
+    ExtObj,
     BAObj,
     Bound,
     Builtin,
@@ -285,6 +286,7 @@ class Path:
         self.lazy = {}
         self.prog_temps = None
         self.prog_vals = None  # truth values of the clauses evaluated so far (parallel to prog_temps, concrete ones included)
+        self.active_counters = {}  # frame oid -> names of the ghost counters of the for loops being executed
         self.die_after = None  # number of obligations still to be stated before this path ends (see Config.clauses)
         self.def_ids = set()
         self.nproves = 0
@@ -336,14 +338,27 @@ class Path:
         return g
 
     def _abs_query(self, extra, timeout=800):
-        s = z3.Solver()
-        s.set('timeout', timeout)
-        for p in self.pc:
+        # one incremental solver per path: the path condition only grows (except for the temporary
+        # hypotheses of clause lists / quantifier bodies, detected by comparing the asserted prefix)
+        s = getattr(self, '_abs_solver', None)
+        done = getattr(self, '_abs_done', None)
+        pc = self.pc
+        if s is None or len(done) > len(pc) or any(d is not p for d, p in zip(done, pc)):
+            s = z3.Solver()
+            s.set('timeout', timeout)
+            done = []
+            self._abs_solver, self._abs_done = s, done
+        for p in pc[len(done):]:
             g = self._abstract(p)
             if g is not None:
                 s.add(g)
-        s.add(extra)
-        return s.check()
+            done.append(p)
+        s.push()
+        try:
+            s.add(extra)
+            return s.check()
+        finally:
+            s.pop()
 
     def feasible(self, c):
         if c is True:
@@ -662,9 +677,25 @@ class Path:
         elif isinstance(t, ast.Subscript):
             self.store_subscript(self.eval(t.value), self.eval_index(t.slice), v)
         elif isinstance(t, (ast.Tuple, ast.List)):
-            items = self.unpack(v, len(t.elts), any(isinstance(e, ast.Starred) for e in t.elts))
-            if any(isinstance(e, ast.Starred) for e in t.elts):
-                raise Unsupported('starred assignment')
+            stars = [i for i, e in enumerate(t.elts) if isinstance(e, ast.Starred)]
+            if stars:
+                # a, *rest, z = <iterable with a concrete spine>
+                if len(stars) > 1:
+                    raise Unsupported('two starred targets')
+                allv = self.concrete_iter(v)
+                if allv is None:
+                    raise Unsupported('starred assignment from a symbolic iterable')
+                k = stars[0]
+                after = len(t.elts) - k - 1
+                if len(allv) < len(t.elts) - 1:
+                    raise PyExc(ValueError('not enough values to unpack'))
+                for e, x in zip(t.elts[:k], allv[:k]):
+                    self.assign(e, x)
+                self.assign(t.elts[k].value, self.alloc(LObj(list(allv[k : len(allv) - after]))))
+                for e, x in zip(t.elts[k + 1 :], allv[len(allv) - after :] if after else []):
+                    self.assign(e, x)
+                return
+            items = self.unpack(v, len(t.elts), False)
             for e, x in zip(t.elts, items):
                 self.assign(e, x)
         else:
@@ -709,7 +740,9 @@ class Path:
         c = self.truth(self.eval(s.test))
         if self.spec_mode or self.cfg.asserts_are_obligations(self):
             # in ghost/lemma code an assert is a proof obligation
-            self.oblige(self.cfg.obl_name(self, 'assert', f'L{s.lineno}'), 'assert', c)
+            # `assert cond, 'label'` in ghost/lemma code names the obligation (stable across edits of the sidecar)
+            label = s.msg.value if isinstance(s.msg, ast.Constant) and isinstance(s.msg.value, str) else f'L{s.lineno}'
+            self.oblige(self.cfg.obl_name(self, 'assert', label), 'assert', c)
             return
         if not self.branch(c):
             raise PyExc(AssertionError())
@@ -917,6 +950,7 @@ class Path:
 
     # -- loops ---------------------------------------------------------------
     def loop_label(self, node):
+        node = getattr(node, '_orig_loop', node)
         f = self.func_stack[-1]
         labels = getattr(f, '_loop_labels', None)
         if labels is None:
@@ -979,6 +1013,8 @@ class Path:
             if step:
                 step()
             spec.check_inv(self, 'inv-preserved')
+            if getattr(spec, 'mods', None) is not None:
+                spec.check_loop_frame(self)
             if v0 is not None:
                 v1 = spec.variant(self)
                 self.oblige(spec.name('variant-decreases'), 'variant', self.compare_op(ast.Lt(), v1, v0))
@@ -989,6 +1025,10 @@ class Path:
     def st_For(self, s):
         if s.orelse:
             raise Unsupported('for/else')
+        if isinstance(s.iter, ast.GeneratorExp):
+            lazy = self.lazy_genexp_for(s)
+            if lazy is not None:
+                return self.st_For(lazy)
         it = self.eval(s.iter)
         items = self.concrete_iter(it)
         if items is not None:
@@ -1002,11 +1042,18 @@ class Path:
                     continue
             return
         spec = self.cfg.loop_spec(self, self.func_stack[-1], self.loop_label(s))
+        if isinstance(it, Ref) and isinstance(self.obj(it), ExtObj):
+            return self.obj(it).ext_for(self, it, s, spec)
         if spec is None:
             raise Unsupported(f'for loop over symbolic iterable without invariant at {self.cur_loc}')
+        if isinstance(it, Unknown) and self.skeleton:
+            # skeleton profile: an uninterpreted iterable yields any number of uninterpreted items
+            self.abstraction_used = True
+            self.cut_loop(s, spec, lambda: Unknown('iter'), lambda: self.assign(s.target, Unknown('item')), ())
+            return
         fr = self.scope[0]
         if isinstance(it, SymRange):
-            itname = '_it'
+            itname = self.loop_counter_name('_it')
             self.store_name(itname, it.start)
             step = it.step
 
@@ -1019,11 +1066,11 @@ class Path:
             def stepf():
                 self.store_name(itname, self.binop(ast.Add(), self.lookup(itname), step))
 
-            self.cut_loop(s, spec, test, pre_body, (itname,), stepf)
+            self.cut_loop_named(itname, s, spec, test, pre_body, (itname,), stepf)
             return
         seq = self.as_symseq(it)
         if seq is not None:
-            itname = '_i'
+            itname = self.loop_counter_name('_i')
             self.store_name(itname, 0)
             ln = self.length(seq)
 
@@ -1036,11 +1083,11 @@ class Path:
             def stepf():
                 self.store_name(itname, self.binop(ast.Add(), self.lookup(itname), 1))
 
-            self.cut_loop(s, spec, test, pre_body, (itname,), stepf)
+            self.cut_loop_named(itname, s, spec, test, pre_body, (itname,), stepf)
             return
         if isinstance(it, SymZip):
             # zip of symbolic sequences: position _i runs over 0 .. min(len) - 1, the target is the tuple of the _i-th elements
-            itname = '_i'
+            itname = self.loop_counter_name('_i')
             self.store_name(itname, 0)
             lens = [self.length(q) for q in it.seqs]
 
@@ -1053,11 +1100,80 @@ class Path:
             def stepf():
                 self.store_name(itname, self.binop(ast.Add(), self.lookup(itname), 1))
 
-            self.cut_loop(s, spec, test, pre_body, (itname,), stepf)
+            self.cut_loop_named(itname, s, spec, test, pre_body, (itname,), stepf)
+            return
+        if self.skeleton and isinstance(it, Unknown):
+            # skeleton profile: an uninterpreted iterable yields an arbitrary number of uninterpreted items
+            self.abstraction_used = True
+
+            def pre_body_u():
+                self.assign(s.target, Unknown('item'))
+
+            self.cut_loop(s, spec, lambda: Unknown('more items'), pre_body_u, ())
             return
         raise Unsupported(f'for over {it!r}')
 
+    def loop_counter_name(self, base):
+        """ghost counter of a for loop over a symbolic range / sequence: `_it` / `_i`; a loop nested inside another
+        such loop of the same activation gets `_it1`, `_i1`, `_i2`, ... (one shared name would let the inner loop
+        clobber the position of the outer one)"""
+        active = self.active_counters.setdefault(self.scope[0].oid, [])
+        name, n = base, 0
+        while name in active:
+            n += 1
+            name = f'{base}{n}'
+        return name
+
+    def cut_loop_named(self, itname, *args):
+        active = self.active_counters.setdefault(self.scope[0].oid, [])
+        active.append(itname)
+        try:
+            return self.cut_loop(*args)
+        finally:
+            active.remove(itname)
+
     st_AsyncFor = st_For
+
+    def lazy_genexp_for(self, s):
+        """`for T in (elt for x in xs if c1 if c2)`: a generator expression is *lazy* -- its conditions and
+        element expression run interleaved with the loop body (they may await, raise, and read variables the
+        body assigns).  The statement is executed as the equivalent
+            for x' in xs:  if not c1': continue;  if not c2': continue;  T = elt';  body
+        where x' is the comprehension variable renamed apart (it is local to the generator's own scope).
+        Returns the synthetic For node (cached; it carries the loop label of the original statement), or None
+        when the shape is not handled (several `for` clauses, nested scopes rebinding names): the caller then
+        falls back to evaluating the generator expression as a value."""
+        cached = getattr(s, '_lazy_for', False)
+        if cached is not False:
+            return cached
+        ge = s.iter
+        out = None
+        if len(ge.generators) == 1 and not any(isinstance(x, (ast.Lambda, ast.ListComp, ast.SetComp, ast.DictComp, ast.GeneratorExp, ast.NamedExpr)) for c in [ge.elt] + list(ge.generators[0].ifs) for x in ast.walk(c)):
+            g = ge.generators[0]
+            bound = {x.id for x in ast.walk(g.target) if isinstance(x, ast.Name)}
+            ren = {n: f'_ge{s.lineno}_{n}' for n in bound}
+
+            class _Ren(ast.NodeTransformer):
+                def visit_Name(self, n):
+                    if n.id in ren:
+                        return ast.copy_location(ast.Name(ren[n.id], n.ctx), n)
+                    return n
+
+            import copy as _copy
+
+            def rn(n):
+                return ast.fix_missing_locations(_Ren().visit(_copy.deepcopy(n)))
+
+            body = []
+            for c in g.ifs:
+                body.append(ast.copy_location(ast.If(ast.UnaryOp(ast.Not(), rn(c)), [ast.copy_location(ast.Continue(), c)], []), c))
+            body.append(ast.copy_location(ast.Assign([s.target], rn(ge.elt)), s))
+            body.extend(s.body)
+            out = ast.copy_location(type(s)(rn(g.target), g.iter, body, [], None), s)
+            ast.fix_missing_locations(out)
+            out._orig_loop = s
+        s._lazy_for = out
+        return out
 
     def is_pos(self, v):
         if isinstance(v, int):
@@ -1186,12 +1302,24 @@ class Path:
 
     def ev_JoinedStr(self, n):
         # f-strings only feed log lines / exception messages
+        # (contract kwarg fstrings='eval': a replacement field without conversion/format spec whose value
+        # is a concrete str/int is formatted exactly -- needed where a name is computed for getattr dispatch)
+        evaluate = getattr(getattr(self.cfg, 'top', None), 'extra', {}).get('fstrings') == 'eval'
         parts = []
+        opaque = False
         for v in n.values:
             if isinstance(v, ast.Constant):
                 parts.append(v.value)
+            elif evaluate:
+                x = self.eval(v.value)
+                if v.conversion == -1 and v.format_spec is None and type(x) in (str, int):
+                    parts.append(str(x))
+                else:
+                    opaque = True
             else:
                 return OpaqueStr()
+        if opaque:
+            return OpaqueStr()
         return ''.join(parts)
 
     def ev_Attribute(self, n):
@@ -1688,6 +1816,8 @@ class Path:
                 return len(o.items) > 0
             if isinstance(o, MObj):
                 raise Unsupported('truth of symbolic map')
+            if isinstance(o, ExtObj):
+                return o.ext_truth(self, v)
             if isinstance(o, Obj):
                 from . import models
 
@@ -1715,9 +1845,13 @@ class Path:
             if isinstance(o, BAObj):
                 return self.length(o.val)
             if isinstance(o, LObj):
+                if o.flavor == 'set' and o.items:
+                    raise Unsupported('len of a set with symbolic members')
                 return len(o.items) if o.items is not None else self.length(o.sym)
             if isinstance(o, DObj):
                 return len(o.items)
+            if isinstance(o, ExtObj):
+                return o.ext_len(self, v)
             if isinstance(o, Obj):
                 from . import models
 
